@@ -68,6 +68,10 @@ pub struct PatchCase {
     /// file log only: number of file events planted first through an init diff
     #[serde(default)]
     pub prefill_files: u8,
+    /// server only: a forced update (`PUT sync/account`, UpdateSet) that replaces the addressed log
+    /// with a prefix of its own records; `proof` picks the checkpoint sent along
+    #[serde(default)]
+    pub force_update: bool,
 }
 
 pub fn case_strategy() -> impl Strategy<Value = PatchCase> {
@@ -94,8 +98,9 @@ pub fn case_strategy() -> impl Strategy<Value = PatchCase> {
         ],
         prop_oneof![2 => Just(false), 1 => Just(true)],
         0u8..4,
+        prop_oneof![4 => Just(false), 1 => Just(true)],
     )
-        .prop_map(|(cfg, server_db, depth, target, proof, patch_len, server_side, log, no_rewind, prefill_files)| PatchCase {
+        .prop_map(|(cfg, server_db, depth, target, proof, patch_len, server_side, log, no_rewind, prefill_files, force_update)| PatchCase {
             cfg,
             server_db,
             depth,
@@ -106,6 +111,7 @@ pub fn case_strategy() -> impl Strategy<Value = PatchCase> {
             log,
             no_rewind,
             prefill_files,
+            force_update,
         })
 }
 
@@ -221,9 +227,12 @@ async fn run_case(c: &PatchCase, info: &mut CaseInfo) -> CheckResult {
             ));
         }
     }
-    let before = logs_of(&w, c.server_side).await?;
+    let before = logs_of(&w, c.server_side || c.force_update).await?;
     let log = before.get(&key).cloned().unwrap_or_default();
     let commits: Vec<[u8; 32]> = log.iter().map(|r| r.commit).collect();
+    if c.force_update {
+        return force_update_case(c, &w, info, &key, &log_type, &log, &before).await;
+    }
     // rewind target and the log as it is after the rewind
     let (target, cut): (CommitHash, Option<usize>) = match c.target {
         _ if c.no_rewind => (CommitHash([0; 32]), Some(commits.len())),
@@ -363,9 +372,110 @@ async fn run_case(c: &PatchCase, info: &mut CaseInfo) -> CheckResult {
     Ok(())
 }
 
+/// A forced update of one log on the server: the log is replaced by a prefix of its own
+/// records. Applied iff the checkpoint is the head of the records sent; a refusal (error) must
+/// leave every log of the server as it was.
+async fn force_update_case(
+    c: &PatchCase,
+    w: &SyncWorld,
+    info: &mut CaseInfo,
+    key: &str,
+    log_type: &EventLogType,
+    log: &[Rec],
+    before: &std::collections::BTreeMap<String, Vec<Rec>>,
+) -> CheckResult {
+    if log.is_empty() {
+        return Ok(());
+    }
+    // the records sent: a prefix of the log (the whole log when target is None)
+    let keep = match c.target {
+        None => log.len(),
+        Some(f) => 1 + pick(f, log.len()),
+    };
+    let sent: Vec<EventRecord> = log[..keep]
+        .iter()
+        .map(|r| {
+            let t = time::OffsetDateTime::from_unix_timestamp_nanos(r.time).unwrap();
+            EventRecord::new(UtcDateTime::from(t), Default::default(), CommitHash(r.commit), r.bytes.clone())
+        })
+        .collect();
+    let sent_commits: Vec<[u8; 32]> = log[..keep].iter().map(|r| r.commit).collect();
+    let correct = tree_head(&sent_commits).unwrap();
+    let (checkpoint, label) = match &c.proof {
+        ProofKind::Matching => (correct.clone(), "correct"),
+        ProofKind::Shorter(f) => {
+            if keep < 2 {
+                (correct.clone(), "correct")
+            } else {
+                (tree_head(&sent_commits[..1 + pick(*f, keep - 1)]).unwrap(), "shorter-prefix")
+            }
+        }
+        ProofKind::ForgedRoot(bit) => {
+            let mut p = correct.clone();
+            p.root.0[(*bit as usize / 8) % 32] ^= 1 << (bit % 8);
+            (p, "forged-root")
+        }
+        ProofKind::FullLog => (tree_head(&log.iter().map(|r| r.commit).collect::<Vec<_>>()).unwrap(), if keep == log.len() { "correct" } else { "old-head" }),
+        ProofKind::DefaultProof => (CommitProof::default(), "default-proof"),
+    };
+    let expect_applied = checkpoint == correct;
+    info.class("server/force-update");
+    info.class(format!("server/force-update/log/{:?}", c.log));
+    info.class(format!("server/force-update/{label}"));
+    let mut set = sos_sync::UpdateSet::default();
+    match log_type {
+        EventLogType::Identity => set.identity = Some(FolderDiff { last_commit: None, checkpoint, patch: Patch::new(sent) }),
+        EventLogType::Account => set.account = Some(AccountDiff { last_commit: None, checkpoint, patch: Patch::new(sent) }),
+        EventLogType::Device => set.device = Some(DeviceDiff { last_commit: None, checkpoint, patch: Patch::new(sent) }),
+        EventLogType::Files => set.files = Some(FileDiff { last_commit: None, checkpoint, patch: Patch::new(sent) }),
+        EventLogType::Folder(id) => {
+            set.folders.insert(*id, FolderDiff { last_commit: None, checkpoint, patch: Patch::new(sent) });
+        }
+    }
+    let client = w.devices[0].bridge.client.clone();
+    let outcome = client.update_account(set).await.map_err(|e| e.to_string());
+    let after = logs_of(w, true).await?;
+    match (&outcome, expect_applied) {
+        (Ok(()), false) => Err(Failure::new(
+            format!("c07/server/force-update-applied-with-wrong-checkpoint/{label}"),
+            format!("[server] a forced update of the {key} log with a {label} checkpoint was accepted"),
+        )),
+        (Err(e), true) => Err(Failure::new(
+            "c07/server/force-update-correct-request-refused",
+            format!("[server] a forced update of the {key} log with the correct checkpoint ({keep} of {} records) was refused: {e}", log.len()),
+        )),
+        (Ok(()), true) => {
+            let got: Vec<[u8; 32]> = after.get(key).map(|l| l.iter().map(|r| r.commit).collect()).unwrap_or_default();
+            if got != sent_commits {
+                return Err(Failure::new(
+                    "c07/server/force-update-log-differs-from-request",
+                    format!("[server] after an accepted forced update the {key} log has {} records, {} were sent", got.len(), sent_commits.len()),
+                ));
+            }
+            info.class("server/force-update/applied");
+            Ok(())
+        }
+        (Err(e), false) => {
+            info.class("server/force-update/refused");
+            info.nontrivial = true;
+            for (name, l) in before {
+                let now = after.get(name);
+                if now != Some(l) {
+                    let n = now.map(|x| x.len()).unwrap_or(0);
+                    return Err(Failure::new(
+                        format!("c07/server/refused-force-update-changed-log/{}", if n == 0 { "emptied" } else if n < l.len() { "shortened" } else { "changed" }),
+                        format!("[server] a refused forced update ({label} checkpoint, error {}) left the {name} log changed: {} records before, {} after", e.chars().take(80).collect::<String>(), l.len(), n),
+                    ));
+                }
+            }
+            Ok(())
+        }
+    }
+}
+
 pub fn run(shard: &Shard, rep: &mut Report) {
     let t = shard.tier;
-    drive(shard, rep, "server-patch", shard.share(t.pick(300, 5_000)), case_strategy(), |c| check(c));
+    drive(shard, rep, "server-patch", shard.share(t.pick(400, 6_000)), case_strategy(), |c| check(c));
 }
 
 pub fn replay(case: &Value) -> CheckResult {
